@@ -334,7 +334,7 @@ def scenario(cfg, seed, i, kill_at=None, want_states=False):
         res, states, nevents, info = instrumented(w, fn, rg, kill_at)
         w.seams.disarm()
         out = {"label": label, "cfg": cfg, "nstates": len(states), "nevents": nevents, "torn": info["torn"], "between": info["between"],
-               "viol": None, "raised": repr(res) if isinstance(res, M.Raised) else None, "bad": bad}
+               "viol": None, "raised": repr(res).replace(w.dir, "<rundir>") if isinstance(res, M.Raised) else None, "bad": bad}
         atomic = cfg["wc"] or cfg["threading"]
         if want_states:
             out["states_by_event"] = {ev: hashlib.sha256(repr(st).encode()).hexdigest()[:16] for st, (ev, lab) in states.items()}
